@@ -27,6 +27,8 @@ import Osmium.Lemmas.HostileXmlUser
 import Osmium.Lemmas.HostileReadersOpl
 import Osmium.Lemmas.HostileReadersXml
 import Osmium.Lemmas.HostileOpl
+import Osmium.Generated.Src
+import Osmium.Lemmas.SrcTieOplSmall
 
 namespace Osmium.HostileText.C03
 
@@ -431,5 +433,81 @@ example :
   decide +kernel
 
 end
+
+/-! ## Source ties: translated C++ = model
+
+`tools/cxx2lean.py` regenerates `Osmium/Generated/Src.lean` from /repo's source on every run; the theorems below state
+that the TRANSLATED small cursor functions of the OPL reader (io/detail/opl_parser_functions.hpp) are the model functions
+the theorems above are about — for EVERY NUL-terminated byte string (the array is `s ++ 0 :: t`, the cursor the index
+`i ≤ s.length`, the model's input `s.drop i`) — and that they have no undefined behaviour (`_defined`: every read at or
+before the NUL, every pointer inside the array).  Lemmas: Lemmas/SrcTieOplSmall.lean.  (`opl_parse_int`,
+`opl_parse_escaped`, `opl_parse_string`: Props/C13.lean, C14.lean.) -/
+section SrcTies
+open Osmium.Generated Osmium.CxxSem Osmium.Cursor
+
+/-- `opl_non_empty(s)` = `nonEmptyB` of the byte under the cursor (the NUL at the end counts as empty) -/
+theorem src_tie_opl_non_empty (s t : List UInt8) (i : Nat) (hi : i ≤ s.length) :
+    Src.OplParserFunctions.opl_non_empty (s ++ 0 :: t) (i : Int) = OplFmt.nonEmptyB (peek (s.drop i)) ∧
+    Src.OplParserFunctions.opl_non_empty_defined (s ++ 0 :: t) (i : Int) = true :=
+  SrcTie.OplSmall.src_tie_opl_non_empty s t i hi
+
+/-- `opl_parse_visible(&s)` = `pVisible`: 'V' / 'D' consumed, anything else (the NUL included) is `opl_error` with the
+    cursor left alone -/
+theorem src_tie_opl_parse_visible (s t : List UInt8) (i : Nat) (hi : i ≤ s.length) :
+    Src.OplParserFunctions.opl_parse_visible (s ++ 0 :: t) (i : Int) =
+      (match OplFmt.pVisible (s.drop i) with
+       | .ok (b, _) => .normal ((i + 1 : Nat) : Int) b
+       | .error _ => .thrown "osmium::opl_error" (i : Int)) ∧
+    (∀ b rest, OplFmt.pVisible (s.drop i) = .ok (b, rest) → i < s.length ∧ rest = s.drop (i + 1)) ∧
+    Src.OplParserFunctions.opl_parse_visible_defined (s ++ 0 :: t) (i : Int) = true := by
+  obtain ⟨h1, h2, h3⟩ := SrcTie.OplSmall.src_tie_opl_parse_visible s t i hi
+  refine ⟨?_, h2, h3⟩
+  rw [h1]
+  cases OplFmt.pVisible (s.drop i) with
+  | ok p => rfl
+  | error e => rfl
+
+/-- `opl_parse_char(&s, c)` = `pChar c` for every expected character other than NUL (the callers pass '=', ',', '@', …;
+    with `c = '\0'` the C++ function would step over the terminating NUL) -/
+theorem src_tie_opl_parse_char (s t : List UInt8) (i : Nat) (hi : i ≤ s.length) (c : UInt8) (hc : c ≠ 0) :
+    Src.OplParserFunctions.opl_parse_char (s ++ 0 :: t) (i : Int) (sc c) =
+      (match OplFmt.pChar c (s.drop i) with
+       | .ok _ => .normal ((i + 1 : Nat) : Int) ()
+       | .error _ => .thrown "osmium::opl_error" (i : Int)) ∧
+    (∀ rest, OplFmt.pChar c (s.drop i) = .ok rest → i < s.length ∧ rest = s.drop (i + 1)) ∧
+    Src.OplParserFunctions.opl_parse_char_defined (s ++ 0 :: t) (i : Int) (sc c) = true := by
+  obtain ⟨h1, h2, h3⟩ := SrcTie.OplSmall.src_tie_opl_parse_char s t i hi c hc
+  refine ⟨?_, h2, h3⟩
+  rw [h1]
+  cases OplFmt.pChar c (s.drop i) with
+  | ok p => rfl
+  | error e => rfl
+
+/-- `opl_parse_space(&s)` = `pSpaceC`: one space / tab and all that follow are consumed, anything else is `opl_error`;
+    any fuel ≥ the number of characters left + 2 -/
+theorem src_tie_opl_parse_space (s t : List UInt8) (i fuel : Nat) (hi : i ≤ s.length) (hf : s.length - i + 2 ≤ fuel) :
+    (match HostileOpl.pSpaceC (s.drop i) with
+     | .ok rest => ∃ j, i < j ∧ j ≤ s.length ∧ rest = s.drop j ∧
+         Src.OplParserFunctions.opl_parse_space fuel (s ++ 0 :: t) (i : Int) = .normal (j : Int) ()
+     | .error _ => Src.OplParserFunctions.opl_parse_space fuel (s ++ 0 :: t) (i : Int) = .thrown "osmium::opl_error" (i : Int)) ∧
+    Src.OplParserFunctions.opl_parse_space_defined fuel (s ++ 0 :: t) (i : Int) = true :=
+  SrcTie.OplSmall.src_tie_opl_parse_space s t i fuel hi hf
+
+/-- `opl_parse_id(&s)` = `pId` (= `opl_parse_int<int64_t>`, Props/C13.lean `src_tie_opl_parse_int_i64`) -/
+theorem src_tie_opl_parse_id (s t : List UInt8) (i fuel : Nat) (hi : i ≤ s.length) (hf : s.length - i + 2 ≤ fuel) :
+    (match OplFmt.pId (s.drop i) with
+     | .ok (v, rest) => ∃ j, i ≤ j ∧ j ≤ s.length ∧ rest = s.drop j ∧
+         Src.OplParserFunctions.opl_parse_id fuel (s ++ 0 :: t) (i : Int) = .normal (j : Int) v
+     | .error _ => ∃ j, i ≤ j ∧ j ≤ s.length ∧
+         Src.OplParserFunctions.opl_parse_id fuel (s ++ 0 :: t) (i : Int) = .thrown "osmium::opl_error" (j : Int)) ∧
+    Src.OplParserFunctions.opl_parse_id_defined fuel (s ++ 0 :: t) (i : Int) = true :=
+  SrcTie.OplSmall.src_tie_opl_parse_id s t i fuel hi hf
+
+-- the translated functions run: "V" is visible; " \t x" skips three blanks; '=' expected but ',' found
+example : Src.OplParserFunctions.opl_parse_visible ([0x56] ++ 0 :: []) 0 = .normal 1 true := by decide +kernel
+example : Src.OplParserFunctions.opl_parse_space 10 ([0x20, 0x09, 0x20, 0x78] ++ 0 :: []) 0 = .normal 3 () := by decide +kernel
+example : Src.OplParserFunctions.opl_parse_char ([0x2c] ++ 0 :: []) 0 0x3d = .thrown "osmium::opl_error" 0 := by decide +kernel
+
+end SrcTies
 
 end Osmium.HostileText.C03
